@@ -1,5 +1,6 @@
-From MV Require Import Lib.ExtractBase C17.Model.
+From MV Require Import Lib.ExtractBase C17.Model gen.Params_C17.
 From Coq Require Import ExtrOcamlBasic.
 Extraction Language OCaml.
-Extraction "c17_model" force_types fs_get fs_put fs_content sname_eqb tname_eqb
-  r_init r_write r_restart r_step r_run gmtime localtime t_filename t_init t_write t_restart t_step t_run.
+Extraction "c17_model" force_types code_msg_max_len fs_get fs_put fs_content sname_eqb tname_eqb wlen fmt_clamp record_bytes
+  r_init r_write r_log r_restart r_step r_run r_step_log r_run_log gmtime localtime t_filename
+  t_init t_write t_log t_restart t_step t_run t_step_log t_run_log.
